@@ -9,6 +9,7 @@ import ast
 import pathlib
 from typing import Any, Dict, List, Optional, Tuple
 
+from harness import extract
 from harness.extract import ExtractError, _class, _func, _parse
 
 FS_ATTRS = {
@@ -287,7 +288,7 @@ class Skeleton:
                 return
             kind = self.scan(st.value, fl)
             if len(targets) == 1 and isinstance(targets[0], ast.Name):
-                if kind in ("text", "hash", "final", "tmp", "cached"):
+                if kind in ("text", "hash", "final", "tmp", "cached", "cachedir"):
                     self.env[targets[0].id] = kind
                 elif kind == "hash-of-other":
                     self.env[targets[0].id] = "hash-of-other"
@@ -433,9 +434,142 @@ def flag_table(repo: pathlib.Path) -> Dict[str, str]:
     }
 
 
+def _fs_helper(mod: ast.Module, call: ast.AST) -> Optional[ast.FunctionDef]:
+    """The module-level function which ``call`` invokes by name, if it (or a module-level function it calls, transitively)
+    touches the file system / hashing / naming modules of the cache protocol."""
+    if not (isinstance(call, ast.Call) and isinstance(call.func, ast.Name)):
+        return None
+    fns = [n for n in mod.body if isinstance(n, ast.FunctionDef) and n.name == call.func.id]
+    if len(fns) != 1:
+        return None
+    probe = Skeleton.has_fs_call
+    for g in extract._reachable_functions(mod, fns[0]):
+        if probe(None, ast.Module(body=g.body, type_ignores=[])) is not None:  # type: ignore[arg-type]
+            return fns[0]
+    return None
+
+
+def _returns_in(stmts: List[ast.stmt]) -> List[ast.Return]:
+    return [n for st in stmts for n in ast.walk(st) if isinstance(n, ast.Return)]
+
+
+def _is_none(e: Optional[ast.AST]) -> bool:
+    return e is None or (isinstance(e, ast.Constant) and e.value is None)
+
+
+def _assign(name: str, value: ast.expr, like: ast.AST) -> ast.stmt:
+    return ast.copy_location(ast.Assign(targets=[ast.Name(id=name, ctx=ast.Store())], value=value, lineno=getattr(like, "lineno", 0)), like)
+
+
+def _continue_at_result(stmts: List[ast.stmt], target: str, cont: List[ast.stmt], what: str) -> List[ast.stmt]:
+    """``stmts`` end — possibly inside ``with`` blocks — in ``return <name>`` of a value asserted to be an instance of a
+    class: that return becomes ``target = <name>`` followed by ``cont``."""
+    if not stmts:
+        raise ExtractError(f"{what}: no result is returned at the end")
+    last = stmts[-1]
+    if isinstance(last, ast.With):
+        import copy
+
+        w = copy.copy(last)
+        w.body = _continue_at_result(last.body, target, cont, what)
+        return stmts[:-1] + [w]
+    if isinstance(last, ast.Return) and isinstance(last.value, ast.Name):
+        v = last.value.id
+        asserted = any(
+            isinstance(st, ast.Assert) and ast.unparse(st.test).startswith(f"isinstance({v}, ") for st in stmts[:-1]
+        )
+        if not asserted:
+            raise ExtractError(f"{what}: the returned {v} is not asserted to be an instance (it could be None)")
+        return stmts[:-1] + [_assign(target, last.value, last)] + cont
+    raise ExtractError(f"{what}: does not end in `return <name>`")
+
+
+def _inline_fs_helpers(mod: ast.Module, stmts: List[ast.stmt], depth: int = 0) -> List[ast.stmt]:
+    """``stmts`` with every call of a module-level helper that takes part in the cache protocol read in place (parameters
+    bound to the arguments), so that the protocol is seen whether it is written in ``load_model`` or in private helpers:
+
+    * ``helper(…)`` as a statement: the body of the helper (it returns nothing);
+    * ``x = helper(…)`` where the helper is straight-line code ending in its only ``return <e>``: the body, then ``x = <e>``;
+    * ``x = helper(…)`` followed by ``if x is not None: <S>`` where the helper is ``if not <C>: return None`` followed by code
+      ending in ``return <instance>``: ``if <C>: <that code>; x = <instance>; <S>``.
+
+    A helper call of any other shape is an ExtractError (never skipped)."""
+    import copy
+
+    out: List[ast.stmt] = []
+    i = 0
+    while i < len(stmts):
+        st = stmts[i]
+        nxt = stmts[i + 1] if i + 1 < len(stmts) else None
+        call: Optional[ast.AST] = None
+        target: Optional[str] = None
+        if isinstance(st, ast.Expr):
+            call = st.value
+        elif isinstance(st, ast.Assign) and len(st.targets) == 1 and isinstance(st.targets[0], ast.Name):
+            call, target = st.value, st.targets[0].id
+        elif isinstance(st, ast.AnnAssign) and isinstance(st.target, ast.Name) and st.value is not None:
+            call, target = st.value, st.target.id
+        g = _fs_helper(mod, call) if call is not None else None
+        if g is None:
+            st = copy.copy(st)
+            for fld in ("body", "orelse", "finalbody"):
+                sub = getattr(st, fld, None)
+                if isinstance(sub, list) and sub and isinstance(sub[0], ast.stmt):
+                    setattr(st, fld, _inline_fs_helpers(mod, sub, depth))
+            if isinstance(st, ast.Try):
+                st.handlers = [copy.copy(h) for h in st.handlers]
+                for h in st.handlers:
+                    h.body = _inline_fs_helpers(mod, h.body, depth)
+            out.append(st)
+            i += 1
+            continue
+        what = f"helper {g.name} of the cache protocol (called at line {st.lineno})"
+        if depth > 4:
+            raise ExtractError(f"{what}: helpers nested too deeply")
+        body = extract.helper_body_at_call(mod, call)  # type: ignore[arg-type]
+        if body is None:
+            raise ExtractError(f"{what}: the arguments do not bind to the parameters one-to-one")
+        body = _inline_fs_helpers(mod, body, depth + 1)
+        rets = _returns_in(body)
+        if target is None:
+            if any(not _is_none(r.value) for r in rets) or any(r is not body[-1] for r in rets):
+                raise ExtractError(f"{what}: called as a statement, but returns early or returns a value")
+            out += [b for b in body if not isinstance(b, ast.Return)]
+            i += 1
+            continue
+        first = body[0] if body else None
+        if (
+            isinstance(nxt, ast.If)
+            and not nxt.orelse
+            and ast.unparse(nxt.test) == f"{target} is not None"
+            and isinstance(first, ast.If)
+            and not first.orelse
+            and isinstance(first.test, ast.UnaryOp)
+            and isinstance(first.test.op, ast.Not)
+            and len(first.body) == 1
+            and isinstance(first.body[0], ast.Return)
+            and _is_none(first.body[0].value)
+            and len(rets) == 2
+        ):
+            cont = _inline_fs_helpers(mod, nxt.body, depth)
+            guarded = ast.If(test=first.test.operand, body=_continue_at_result(body[1:], target, cont, what), orelse=[])
+            out.append(ast.copy_location(guarded, first))
+            i += 2
+            continue
+        if body and isinstance(body[-1], ast.Return) and not _is_none(body[-1].value) and len(rets) == 1:
+            out += body[:-1] + [_assign(target, body[-1].value, st)]  # type: ignore[arg-type]
+            i += 1
+            continue
+        raise ExtractError(f"{what}: the way its result is computed and used is not modelled")
+    return out
+
+
 def skeleton(repo: pathlib.Path) -> Skeleton:
+    import copy
+
     mod = _parse(repo, "aas_core_codegen/run.py")
-    fn = _func(mod, "load_model")
+    fn = copy.copy(_func(mod, "load_model"))
+    fn.body = [ast.fix_missing_locations(st) for st in _inline_fs_helpers(mod, fn.body)]
     sk = Skeleton(fn)
     sk.block(fn.body, (False, False, False, False), top=True)
     missing = [c for c in COMPUTE_CALLS if c not in sk.compute_seen]
